@@ -159,6 +159,8 @@ private:
        (components==proxy.suv1.components ||
         (traits::vector_arity==2 && components==proxy.suv2.components))) //beware of aliasing
       return(WrapperType::apply(*this,static_cast<SU_vector>(proxy))); //evaluate via a temporary
+    //an operand whose storage this vector takes over, if any
+    SU_vector* robbed=nullptr;
     //check whether sizes match
     if(!traits::equal_target_size && this->size!=proxy.suv1.size){
       if(isinit_d) //can't resize
@@ -180,16 +182,20 @@ private:
         ptr_offset=proxy.suv1.ptr_offset;
         isinit=proxy.suv1.isinit;
         isinit_d=proxy.suv1.isinit_d;
-        if(isinit)
+        if(isinit){
           const_cast<SU_vector&>(proxy.suv1).isinit=false; //complete the theft
+          robbed=&const_cast<SU_vector&>(proxy.suv1);
+        }
       }
       else if(proxy.mayStealArg2()){ //if the operation is component-wise and suv2 is an rvalue
         components=proxy.suv2.components; //take suv2's backing storage
         ptr_offset=proxy.suv2.ptr_offset;
         isinit=proxy.suv2.isinit;
         isinit_d=proxy.suv2.isinit_d;
-        if(isinit)
+        if(isinit){
           const_cast<SU_vector&>(proxy.suv2).isinit=false; //complete the theft
+          robbed=&const_cast<SU_vector&>(proxy.suv2);
+        }
       }
       else{
         alloc_aligned(proxy.suv1.dim,proxy.suv1.size,components,ptr_offset);
@@ -200,7 +206,18 @@ private:
     }
     //evaluate in place
     proxy.compute(detail::vector_wrapper<WrapperType>{dim,components});
+    //the robbed operand has served as input; it must not keep referring to
+    //storage which it no longer owns
+    if(robbed)
+      robbed->forget_storage();
     return(*this);
+  }
+  
+  ///Makes this vector empty, without releasing anything
+  void forget_storage(){
+    dim=0;
+    size=0;
+    components=nullptr;
   }
   
 #if SQUIDS_USE_STORAGE_CACHE
@@ -325,9 +342,14 @@ public:
     else
       alloc_aligned(dim,size,components,ptr_offset);
     
-    if(components==proxy.suv1.components && proxy.suv1.isinit)
+    bool robbed=(components==proxy.suv1.components && proxy.suv1.isinit);
+    if(robbed)
       const_cast<SU_vector&>(proxy.suv1).isinit=false; //complete the theft
     proxy.compute(detail::vector_wrapper<detail::AssignWrapper>{dim,components});
+    //the robbed operand has served as input; it must not keep referring to
+    //storage which it no longer owns
+    if(robbed)
+      const_cast<SU_vector&>(proxy.suv1).forget_storage();
   }
 
   ///\brief Construct an SU_vector from a GSL matrix
